@@ -27,6 +27,23 @@ fn needles(max_len: usize) -> Vec<Vec<u8>> {
             out.push(m);
         }
     }
+    // every byte value as a single-byte needle (the one-byte shortcut), and the values at the edges
+    // of the byte range in short and long needles
+    for x in 0..=255u8 {
+        out.push(vec![x]);
+    }
+    for x in [0x00u8, 0x01, 0x7f, 0x80, 0xfe, 0xff] {
+        out.push(vec![x, x]);
+        out.push(vec![x, b'a']);
+        out.push(vec![b'a', x]);
+        out.push(vec![x, b'a', x]);
+        if max_len >= 17 {
+            out.push(vec![x; 17]);
+            let mut v = vec![b'a'; 17];
+            v[16] = x;
+            out.push(v);
+        }
+    }
     out.sort();
     out.dedup();
     out
